@@ -354,3 +354,18 @@ def lsp_sweep_witnesses(match, props):
         out.append({"match": match, "kind": "lsp", "props": list(props), "input": msgs, "expect": {"py": oracle}, "timeout": 300,
                     "note": "position sweep, %s: %d requests" % (what, len(ids))})
     return out
+
+
+import json as _json
+LSP_FIX_PROGRAMS = _json.load(open(os.path.join(os.path.dirname(os.path.abspath(__file__)), "fixes", "corpus.json"))) + [
+    'fun f() {\n  let unused = "a\n  b"\n  let msg = "first\n  second"\n  msg\n}\nf()\n',
+    'fun g(o: Option<Int>): String {\n  match o { _ => { "other" } Some(_) => { "\U0001F600" } }\n}\ng(None)\n',
+    'fun h(xs: List<Int>) {\n  if (xs.len()) == 0 { println("\U0001F600") }\n  if xs.len() != 0 { 1 } else { 2 }\n  if 0 == xs.len() { 3 }\n}\nh([])\n',
+    'fun h2(xs: List<Int>) {\n  if verbose() && ((xs.len()) == 0) { 1 } else if (xs.len() != 0) { 2 }\n  if (0) == xs.len() { 3 }\n  if xs.len() == (0) { 4 }\n}\nfun verbose(): Bool { True }\nh2([])\n',
+    'fun k<T, U>(x: Int): Int {\n  let y = "\u00e9\U0001F600"  let z = 2\n  return x\n}\nk(1)\n',
+    'fun m() {\n  "\U0001F600 unused"  1\n  [1,\n   2]\n  3\n}\nm()\n', 'fun n() {\n  1\n  2 }\nn()\n', 'fun o() {\n  "x"\n  2\n}\no()',
+    'fun p(): Int {\n  let v = foo(1,\n    2)\n  v\n}\nfun foo(a: Int, b: Int): Int { a }\np()\n',
+    'fun q(): String {\n  let s = "\U0001F600\n  \u4e16"\n  s\n}\nq()\n',
+    'fun r(): Int {\n  return (1 +\n    2)\n}\nr()\n',
+]
+LSP_FIX_BOUND = ("%d programs (the check --fix corpus plus multi-line and multi-byte values in every position a lint builds a fix from): the quick-fix edits the language server offers, applied as LSP defines ranges, must give the text `check --fix --stdout` gives, and every range must lie inside the document" % len(LSP_FIX_PROGRAMS))
